@@ -110,9 +110,20 @@ def rand_slice(R: Draw, g: DocGen, size: str = "tiny") -> dict:
     rs = g.rs
     src = g.doc(R, size)
     T = P.tokens_of(src["c"], rs.leaf_types)
+    dd = S.depth_table(T)
+    deep = [p for p in range(len(dd)) if dd[p] > 0]
     for _ in range(4):
         a = R.int(0, len(T))
+        if deep and R.bool(0.6):
+            a = R.choice(deep)
         b = R.int(a, min(len(T), a + R.int(0, 10)))
+        if deep and R.bool(0.5):
+            later = [p for p in deep if a <= p <= a + 14]
+            crossing = [p for p in later if min(dd[a : p + 1]) < min(dd[a], dd[p])]
+            if crossing and R.bool(0.8):
+                b = R.choice(crossing)
+            elif later:
+                b = R.choice(later)
         sl = S.ref_slice(T, a, b)
         if sl is not None:
             return sl
